@@ -209,6 +209,17 @@ pub fn check_plan(prelude: &[Plan], p: &Plan, st: &mut Stats) -> R {
 }
 
 fn sub_random(input: &[u8], st: &mut Stats) -> R {
+    random_case(input, st, false)
+}
+
+/// as `random`, with function / block delimiters and other unrelated instructions scattered
+/// through the prelude: the instruction under test sits in the n-th function, its types and
+/// typed values are declared at module scope or inside an earlier function body
+fn sub_structured(input: &[u8], st: &mut Stats) -> R {
+    random_case(input, st, true)
+}
+
+fn random_case(input: &[u8], st: &mut Stats, structured: bool) -> R {
     let mut cs = Cs::new(input);
     let g = golden();
     let mut gen = Gen::new();
@@ -230,6 +241,25 @@ fn sub_random(input: &[u8], st: &mut Stats) -> R {
         };
         gen.track(&p2);
         prelude.push(p2);
+    }
+    if structured {
+        let n = 1 + cs.below(6);
+        for _ in 0..n {
+            let name = ["Function", "FunctionEnd", "Label", "Return", "FunctionParameter", "FunctionEnd", "Nop", "Function"][cs.below(8)];
+            if let Some(q) = gen.plan(&mut cs, crate::layout::gi_by_name(name)) {
+                gen.track(&q);
+                let at = cs.below(prelude.len() + 1);
+                prelude.insert(at, q);
+            }
+        }
+        // the tracker state the generator assumes must be the one of the final order
+        let mut g2 = Gen::new();
+        for q in &prelude {
+            g2.track(q);
+        }
+        gen.tc = g2.tc;
+        gen.typed_ids = g2.typed_ids;
+        st.count("structured_preludes");
     }
     let gi = match cs.below(8) {
         0 => crate::layout::gi_by_name("Constant"),
@@ -289,6 +319,10 @@ pub const SUBS: &[Sub] = &[
         name: "edge-ids",
         f: sub_edge_ids,
     },
+    Sub {
+        name: "structured-prelude",
+        f: sub_structured,
+    },
 ];
 
 pub fn run(ctx: &Ctx) {
@@ -302,13 +336,14 @@ pub fn run(ctx: &Ctx) {
     drive_enum(ctx, &SUBS[0], sweep::cases().len() as u64);
     drive_random(ctx, &SUBS[1], ctx.n(30_000, 20_000_000), 256);
     drive_random(ctx, &SUBS[2], ctx.n(15_000, 10_000_000), 256);
+    drive_random(ctx, &SUBS[3], ctx.n(15_000, 10_000_000), 320);
 }
 
 pub fn finish(ctx: &Ctx) -> i32 {
     crate::engine::finish(
         ctx,
         Finish {
-            rule: "cases: (a) complete sweep = every core opcode in minimal and maximal form, every enumerant of every operand kind, every single bit / pair of bits / all bits of every mask, every opcode embedded in OpSpecConstantOp (x3 fills each); (b) random grammar-directed plans over all 787 opcodes with a random int/float type prelude. (b') the same with result ids (type ids, typed values, selectors) drawn from the extreme values 0 / 0x7fffffff / 0x80000000 / 0xffffffff. Oracle: Instruction::assemble == words built from numeric values by the generator; parse_words/parse_bytes of header+prelude+words deliver an equal instruction; reference parser R1 accepts the same words. non-trivial = instruction with at least one operand or a result id; distinct = hash of the encoded words.",
+            rule: "cases: (a) complete sweep = every core opcode in minimal and maximal form, every enumerant of every operand kind, every single bit / pair of bits / all bits of every mask, every opcode embedded in OpSpecConstantOp (x3 fills each); (b) random grammar-directed plans over all 787 opcodes with a random int/float type prelude. (b') the same with result ids (type ids, typed values, selectors) drawn from the extreme values 0 / 0x7fffffff / 0x80000000 / 0xffffffff. (b'') the same with OpFunction / OpFunctionParameter / OpLabel / OpReturn / OpFunctionEnd / OpNop scattered through the prelude, so that the instruction sits in a later function and its types or typed values are declared at module scope or in an earlier function body. Oracle: Instruction::assemble == words built from numeric values by the generator; parse_words/parse_bytes of header+prelude+words deliver an equal instruction; reference parser R1 accepts the same words. non-trivial = instruction with at least one operand or a result id; distinct = hash of the encoded words.",
             assumptions: vec![
                 "grammar facts (operand kinds, quantifiers, enumerant parameters) come from the golden snapshot of the pinned tree, cross-checked against hand-written specification anchors (golden/verify.py)".into(),
                 "ids are defined once; context-dependent literals are generated only for supported widths".into(),
